@@ -50,8 +50,12 @@ package client
 import "net/http"
 
 // VerifNewClient builds the bundled REST client over a transport the harness owns (scratch copy only).
+// It is the client NewTcpClient builds - whatever that constructor configures stays in force -
+// with the transport replaced.
 func VerifNewClient(rt http.RoundTripper, logLength int) *PcClient {
-	return newClient("sim", &http.Client{Transport: rt}, logLength)
+	c := NewTcpClient("sim", 80, logLength)
+	c.client.Transport = rt
+	return c
 }
 EOM
 # the scratch repo must see the rt module (the rewritten files import it)
